@@ -388,12 +388,17 @@ def gen_value(rng):
 
 
 def make_long_pool(rng, size=8):
-    width = rng.choice([20, 32])
+    # keys are arbitrary byte strings: 20 and 32 bytes (addresses, hashes) but also LONGER than 32 bytes, with nodes deeper
+    # than 64 nibbles (two keys that fork only in their last byte or last nibble)
+    width = rng.choice([20, 32, 32, 33, 40])
     base = bytes(rng.randrange(256) for _ in range(width))
     pool = [base]
     for _ in range(size - 1):
         cut = rng.randrange(0, width)
         pool.append(base[:cut] + bytes(rng.randrange(256) for _ in range(width - cut)))
+    if width > 32:
+        pool[1] = base[:-1] + bytes([base[-1] ^ 0x01])        # forks at the last nibble
+        pool[2] = base[:-1] + bytes([base[-1] ^ 0x10])        # forks at the last-but-one nibble
     return pool
 
 
